@@ -191,20 +191,23 @@ def _same_value(W, a, b):
     return bool(rnp.allclose(a, b, rtol=1e-12, atol=0, equal_nan=True))
 
 
-def _fresh(W, cross, tag=""):
+def _fresh(W, cross, tag="", dead=False):
     bins = [R.bin_inputs(W, str(j), cross=cross, pos=True) for j in range(2)]
     fs = W.real("fs")
     if W.sym:
         W.assume(fs > 0)
-        for b in bins:
-            if cross:
+        for j, b in enumerate(bins):
+            if cross and not (dead and j == 1):
                 W.assume(b["XY"].re * b["XY"].re + b["XY"].im * b["XY"].im > 0)
+    if dead and cross:
+        # second bin: no coherent power at all (e.g. a dead channel)
+        bins[1]["XY"] = bins[1]["XY"] * 0
     return bins, fs
 
 
-def ob_attr_history(W, cross, first, reverse):
+def ob_attr_history(W, cross, first, reverse, dead=False):
     """`first` is accessed first, then every other attribute; each must equal its value on a fresh result; stored arrays never change"""
-    bins, fs = _fresh(W, cross)
+    bins, fs = _fresh(W, cross, dead=dead)
     if not W.sym and not (fs > 0):
         return
     r = R.mk(W, bins, cross, fs)
@@ -436,6 +439,8 @@ def obligations(tier):
         firsts = ATTRS if tier == "thorough" else ATTRS[::2] + ["Gxy_emp_dev", "Gxx_emp_dev", "Hxy_deg_error", "cf_deg_unwrapped"]
         for i, first in enumerate(dict.fromkeys(firsts)):
             obs.append({"name": "attr-history/%s/first-%s" % ("csd" if cross else "auto", first), "fn": "ob_attr_history", "params": {"cross": cross, "first": first, "reverse": bool(i % 2)}, "weight": 4, "timeout": 30})
+    for first in ("coh", "GyyCx", "Gxx_dev", "coh_error", "Hxy"):
+        obs.append({"name": "attr-history/csd-zero-coherence-bin/first-%s" % first, "fn": "ob_attr_history", "params": {"cross": True, "first": first, "reverse": first in ("coh", "Hxy"), "dead": True}, "weight": 4, "timeout": 30})
     for which, kw in (("bode", {"errors": True, "sigma": 2}), ("bode", {"errors": True, "sigma": 3, "deg": False, "dB": True}), ("asd", {"errors": True, "sigma": 2}), ("psd", {"errors": True, "sigma": 2}),
                       ("coh", {"errors": True, "sigma": 2}), ("cf", {"errors": True, "sigma": 2}), ("csd", {"errors": True, "sigma": 2})):
         obs.append({"name": "plot-history/%s/%s" % (which, "-".join("%s%s" % kv for kv in sorted(kw.items()))), "fn": "ob_plot_history", "params": {"which": which, "kw": kw}, "fork": True, "max_paths": 8, "weight": 6})
